@@ -233,8 +233,12 @@ AddProposalBlockPart(c, m) ==
 
 \* VoteSet.AddVote restricted to what reaches a node: first vote wins; a different second vote of the
 \* same validator is a conflict (never added: no peer has claimed a majority)
+\* (VoteSet.addVerifiedVote: a conflicting vote for the block that already HAS the majority replaces the
+\* validator's canonical vote although it is reported as a conflict and not counted again)
 AddToVS(vs, v) == IF vs[v.i] = NoB THEN [added |-> TRUE, conflict |-> FALSE, vs |-> [vs EXCEPT ![v.i] = v.bid]]
-                  ELSE [added |-> FALSE, conflict |-> vs[v.i] # v.bid, vs |-> vs]
+                  ELSE IF vs[v.i] = v.bid THEN [added |-> FALSE, conflict |-> FALSE, vs |-> vs]
+                  ELSE [added |-> FALSE, conflict |-> TRUE,
+                        vs |-> IF Maj(vs) = v.bid THEN [vs EXCEPT ![v.i] = v.bid] ELSE vs]
 
 \* tryAddVote's reaction to ErrVoteConflictingVotes: evidence unless the vote is our own
 Conflict(c, v, old) ==
@@ -247,7 +251,7 @@ AddVote(c, v, env) ==
   IF v.h + 1 = s.h /\ v.type = PrecommitT THEN                       \* late precommit for the previous height
      IF s.step # NewHeight \/ ~s.hasLast \/ ~v.ok \/ v.r # s.lastR THEN c     \* LastCommit is the vote set of the commit round
      ELSE LET res == AddToVS(s.lastCommit, v) IN
-          IF res.conflict THEN Conflict(c, v, s.lastCommit[v.i])
+          IF res.conflict THEN Conflict(SetS(c, [s EXCEPT !.lastCommit = res.vs]), v, s.lastCommit[v.i])
           ELSE IF ~res.added THEN c
           ELSE LET c1 == SetS(c, [s EXCEPT !.lastCommit = res.vs])
                IN IF SkipTimeoutCommit /\ HasAllV(res.vs) THEN EnterNewRound(c1, s.h, 1, env) ELSE c1
@@ -261,7 +265,9 @@ AddVote(c, v, env) ==
                     ELSE [AddRounds(s, {v.r}) EXCEPT !.catchup = Append(@, v.peer)]
              cur == IF v.type = PrevoteT THEN s0.votes[v.r].pv ELSE s0.votes[v.r].pc
              res == IF v.ok THEN AddToVS(cur, v) ELSE [added |-> FALSE, conflict |-> FALSE, vs |-> cur]
-         IN IF res.conflict THEN Conflict(SetS(c, s0), v, cur[v.i])
+         IN IF res.conflict
+            THEN Conflict(SetS(c, IF v.type = PrevoteT THEN [s0 EXCEPT !.votes[v.r].pv = res.vs]
+                                                       ELSE [s0 EXCEPT !.votes[v.r].pc = res.vs]), v, cur[v.i])
             ELSE IF ~res.added THEN SetS(c, s0)
             ELSE
               LET s1 == IF v.type = PrevoteT THEN [s0 EXCEPT !.votes[v.r].pv = res.vs]
